@@ -132,7 +132,7 @@ prop("C21",
      assumptions=["A-chrono: NaiveDate::from_ymd_opt / num_days_from_ce / + Duration::days implement the proleptic Gregorian day count civil_days (external crate, shells in units/dates.rs)"],
      residual="WEEKDAY, the yyyy-mm-dd formatter/parser (string code), permissive DATE month/day wrapping (chrono Months/Days arithmetic)")
 prop("C28",
-     units=["select", "arms", "nav"],
+     units=["select", "arms", "nav", "modelatomic"],
      level="proof",
      claim="the selected-sheet index after a sheet move (selected_sheet_after_move) or deletion (selected_sheet_after_delete) is an existing sheet, "
            "follows the sheet by identity, and the move map is an invertible permutation (undo/redo re-select the same sheet)",
@@ -169,7 +169,7 @@ prop("C01",
 
 
 prop("C27",
-     units=["cols", "rows", "colshift", "spill"],
+     units=["cols", "rows", "colshift", "spill", "modelatomic"],
      level="proof",
      claim="column descriptors stay sorted, non-overlapping and non-degenerate and row descriptors stay unique under every writer under contract: "
            "the Worksheet setters (cols, rows), the descriptor rebuilds of insert/delete columns and rows (colshift; deletion yields exactly the surviving "
